@@ -1,5 +1,5 @@
 """C10 scenarios: reshape, permute, QTT conversion."""
-from .lib import scenario, dense, prod, tt_input
+from .lib import scenario, dense, prod, tt_input, abs2sum
 from .c01 import _or, DELTA
 from .c02 import so_tt_input, ROUNDOFF2
 
@@ -14,8 +14,8 @@ def _eps(E, s, default):
 def _accuracy(E, label, yd, ref, e, c):
     tn = E.tn
     diff = yd - ref
-    err2 = tn.sum(diff * diff).item()
-    nrm2 = tn.sum(ref * ref).item()
+    err2 = abs2sum(E, diff)
+    nrm2 = abs2sum(E, ref)
     E.true(label, err2 <= ((c * c) * (e * e) * (1 + DELTA) + ROUNDOFF2) * nrm2)
 
 
@@ -24,9 +24,9 @@ def tt_reshape(E, s):
     tn = E.tn
     N, R, M = s['N'], s['R'], s.get('M')
     if s.get('general'):
-        x, xc = tt_input(E, 'x', N, R, 'float64', M)      # arbitrary sign-free entries, rank-1 profile
+        x, xc = tt_input(E, 'x', N, R, s.get('dtype', 'float64'), M)      # arbitrary sign-free entries, rank-1 profile
     else:
-        x, xc = so_tt_input(E, 'x', N, R, s['patterns'], M, sym_cores=s.get('sym_cores'))
+        x, xc = so_tt_input(E, 'x', N, R, s['patterns'], M, dtype=s.get('dtype', 'float64'), sym_cores=s.get('sym_cores'))
     xd = dense(E, xc)
     eps, e = _eps(E, s, 1e-16)
     if M is None:
@@ -54,9 +54,9 @@ def tt_permute(E, s):
     N, R, M = s['N'], s['R'], s.get('M')
     d = len(N)
     if s.get('general'):
-        x, xc = tt_input(E, 'x', N, R, 'float64', M)      # arbitrary sign-free entries, rank-1 profile
+        x, xc = tt_input(E, 'x', N, R, s.get('dtype', 'float64'), M)      # arbitrary sign-free entries, rank-1 profile
     else:
-        x, xc = so_tt_input(E, 'x', N, R, s['patterns'], M, sym_cores=s.get('sym_cores'))
+        x, xc = so_tt_input(E, 'x', N, R, s['patterns'], M, dtype=s.get('dtype', 'float64'), sym_cores=s.get('sym_cores'))
     xd = dense(E, xc)
     eps, e = _eps(E, s, 1e-12)
     dims = list(s['dims'])
@@ -79,9 +79,9 @@ def tt_to_qtt(E, s):
     tn = E.tn
     N, R, M = s['N'], s['R'], s.get('M')
     if s.get('general'):
-        x, xc = tt_input(E, 'x', N, R, 'float64', M)      # arbitrary sign-free entries, rank-1 profile
+        x, xc = tt_input(E, 'x', N, R, s.get('dtype', 'float64'), M)      # arbitrary sign-free entries, rank-1 profile
     else:
-        x, xc = so_tt_input(E, 'x', N, R, s['patterns'], M, sym_cores=s.get('sym_cores'))
+        x, xc = so_tt_input(E, 'x', N, R, s['patterns'], M, dtype=s.get('dtype', 'float64'), sym_cores=s.get('sym_cores'))
     xd = dense(E, xc)
     eps, e = _eps(E, s, 1e-12)
     ms = s.get('mode_size', 2)
